@@ -54,27 +54,31 @@ theorem unbind_guarded (s : State) (pod : Pod) (ip : IP) (r : Rec) (hm : ip ∈ 
     rw [hr]
     simp [h1, h2, h3]
 
-/-- the state in which the resync closure decides: after the provider unassign (if a node is recorded) node and uid of
-    the key's records are cleared -/
+/-- the state in which the resync closure takes the release decision: after the two "is anybody running?" questions,
+    and - if a node is recorded and a provider is configured - after the provider unassign and the clearing of node and
+    uid of the key's records -/
 def resyncPre (t : State) (ip : IP) (k : Key) (r : Rec) : State :=
-  if (podRunning Facts.good t k.pod k.ns r.uid).1.provOn && r.node ≠ "" then
-    (reserve (provUnassign (podRunning Facts.good t k.pod k.ns r.uid).1 r.node ip).1 k k {}).1
-  else (podRunning Facts.good t k.pod k.ns r.uid).1
+  if (keyOwnedByRunningPod Facts.good (podRunning Facts.good t k.pod k.ns r.uid).1 k r.uid).1.provOn && r.node ≠ "" then
+    (reserve (provUnassign (keyOwnedByRunningPod Facts.good (podRunning Facts.good t k.pod k.ns r.uid).1 k r.uid).1 r.node ip).1 k k {}).1
+  else (keyOwnedByRunningPod Facts.good (podRunning Facts.good t k.pod k.ns r.uid).1 k r.uid).1
 
-/-- the resync closure for a record that is re-read with the same key, whose pod is found not running and whose
-    provider unassign (if any) succeeds: the release decision with the STORED policy `r.policy` of the re-read record -/
+/-- the resync closure for a record that is re-read with the same key, whose pod is found not running (nor any pod
+    holding another record of the key) and whose provider unassign (if any) succeeds: the release decision with the
+    STORED policy `r.policy` of the re-read record -/
 theorem resyncOne_eq (t : State) (ip : IP) (r0 r : Rec) (hr : Tbl.get t.alloc ip = some r) (hk : r.key = r0.key)
     (hrun : (podRunning Facts.good t r0.key.pod r0.key.ns r.uid).2 = false)
-    (hprov : (provUnassign (podRunning Facts.good t r0.key.pod r0.key.ns r.uid).1 r.node ip).2 = true) :
+    (hown : (keyOwnedByRunningPod Facts.good (podRunning Facts.good t r0.key.pod r0.key.ns r.uid).1 r0.key r.uid).2 = false)
+    (hprov : (provUnassign (keyOwnedByRunningPod Facts.good (podRunning Facts.good t r0.key.pod r0.key.ns r.uid).1 r0.key r.uid).1
+      r.node ip).2 = true) :
     resyncOne Facts.good t ip r0 =
       (exec (resyncPre t ip r0.key r) r0.key (codeAction (dinOf CRs.none (resyncPre t ip r0.key r) r0.key r.policy))).1 := by
   unfold resyncOne resyncPre
   simp only [good_resyncRechecks, if_true, hr]
   have hne : ¬ r.key ≠ r0.key := fun h => h hk
-  simp only [hne, if_false, hrun, Bool.false_eq_true, hprov, Bool.not_true]
-  split
-  · rw [go_eq]
-  · rw [go_eq]
+  simp only [hne, if_false, hrun, hown, Bool.false_eq_true]
+  rw [resyncAct_eq]
+  simp only [hprov, Bool.not_true, Bool.false_eq_true, if_false]
+  split <;> rfl
 
 /-! ### the stored policy is preserved -/
 
